@@ -1219,12 +1219,16 @@ func (r c02result) coqCase(c c02case) string {
 }
 
 func runC02recv(cfg config, rep *hx.Report, cf *hx.CasesFile, n int) {
+	runC02recvModes(cfg, rep, cf, n, []string{"honest", "honest", "fault", "fault", "fault", "wild"})
+}
+
+func runC02recvModes(cfg config, rep *hx.Report, cf *hx.CasesFile, n int, modes []string) {
 	rng := hx.NewRand(cfg.seed).Fork(2)
 	base, _ := os.MkdirTemp("", "c02")
 	defer os.RemoveAll(base)
 	ncorpus := 10
 	for i := 0; i < n+ncorpus; i++ {
-		mode := []string{"honest", "honest", "fault", "fault", "fault", "wild"}[rng.Intn(6)]
+		mode := modes[rng.Intn(len(modes))]
 		c := buildCase(i, rng, mode)
 		if i < ncorpus {
 			mode = "corpus-eof-race"
